@@ -7,4 +7,5 @@ Set Extraction KeepSingleton.
 From Kardia Require Import Base.Anchor.
 Extraction "../ocaml/C01/model.ml" Anchor.anchor Run.mk_event Run.run_all_obey Run.run_obeys Run.run_commit_quorum
   Run.mk_slot Run.mk_commit Run.run_verify_commit Run.mk_blk Run.run_p_init Run.run_p_handle
-  Run.ev_block Run.ev_process Run.ev_peer_error Run.ev_finished.
+  Run.ev_block Run.ev_process Run.ev_peer_error Run.ev_finished
+  Run.run_monitor_lock Run.run_monitor_all.
